@@ -243,6 +243,7 @@ class P(Prop):
         (M, "TV.C11.val_mixed_raises", "outside the domain: a number compared with an ObsTime (either way) is the AttributeError of ObsTime.__gt__ / __lt__"),
         (M, "TV.C11.builtin_features", "getObsAnalyticalFeature on the built-in names: 'timestamp' reads the ObsTime objects, 'idx' 0,1,2,.., 't' toAbsTime() of every timestamp, whatever the feature table holds"),
         (M, "TV.C11.segmentation_track_typed", "segmentation_track for the operator-call model: tested features of any kind (built-in 'timestamp' included), typed against their thresholds"),
+        (M, "TV.C11.segmentation_track_val", "the same on numbers and ObsTime objects: every tested feature holding values of the kind of its threshold (e.g. ['speed', 'timestamp'] against [5.0, ObsTime])"),
         (M, "TV.C11.segmentation_history_typed", "segmentation_history for the operator-call model, exceptions included"),
     ]
     partial = []
@@ -447,7 +448,10 @@ class P(Prop):
             if kd in ("timestamp", "tf"):
                 return "@%d" % self.pick_instant(rng, tms)
             if kd == "t":
-                return ratstr(Fraction(tm_float(self.pick_instant(rng, tms))))
+                # snapped to a multiple of 125 ms: such an instant is a double whatever way toAbsTime() is computed, every
+                # other instant is at least 1 ms away from it, so the oracle does not depend on the last bit of 't'
+                m = self.pick_instant(rng, tms)
+                return ratstr(Fraction(m if m % 125 == 0 else (m // 250) * 250 + 125, 1000))
             if kd == "idx":
                 return rng.choice([str(i) for i in range(-1, n + 1)] + ["1/2", "5/2"])
             return ratstr(rng.choice(pool))
